@@ -100,4 +100,29 @@ def batchBody (p : Recv α) (len : Nat) (compressed : Bool) (bs : Bytes) : List 
     let r := batch p (bs.drop len)
     (m :: r.1, r.2)
 
+/-- What a receiver is left holding of an unfinished frame when the input ends: the bytes of a
+partial header, or the payload bytes received so far of a frame whose header was accepted
+(`[]` when the input ends between frames, right after an accepted header, or at a refused frame). -/
+def held (p : Recv α) (bs : Bytes) : Bytes :=
+  match bs with
+  | [] => []
+  | f :: a :: b :: c :: d :: rest =>
+    match header p f (be32 a b c d) with
+    | .error _ => []
+    | .ok comp =>
+      match payload p (be32 a b c d) comp rest with
+      | .error .incomplete => rest
+      | .error _ => []
+      | .ok _ => held p (rest.drop (be32 a b c d))
+  | _ => bs
+termination_by bs.length
+decreasing_by simp; omega
+
+/-- The same, entered after a header `(len, compressed)` has already been accepted. -/
+def heldBody (p : Recv α) (len : Nat) (compressed : Bool) (bs : Bytes) : Bytes :=
+  match payload p len compressed bs with
+  | .error .incomplete => bs
+  | .error _ => []
+  | .ok _ => held p (bs.drop len)
+
 end Spec.Framing
